@@ -8,6 +8,7 @@ import (
 	"os"
 	"path/filepath"
 	"regexp"
+	"runtime/pprof"
 	"sort"
 	"strings"
 	"time"
@@ -49,7 +50,13 @@ func main() {
 	maxWall := flag.Float64("maxwall", 0, "wall-clock budget per harness in seconds (0 = none); exceeding it is reported as a bound hit")
 	extra := flag.String("extra", "", "comma separated extra overlay mappings virtual=real")
 	modelFile := flag.String("model", "", "concrete replay: JSON file with {harness, model}; runs that harness once under the assignment")
+	cpuprof := flag.String("cpuprofile", "", "write CPU profile")
 	flag.Parse()
+	if *cpuprof != "" {
+		f, _ := os.Create(*cpuprof)
+		pprof.StartCPUProfile(f)
+		defer pprof.StopCPUProfile()
+	}
 
 	os.Setenv("PATH", "/opt/veriftools/go1.26.8/bin:"+os.Getenv("PATH"))
 	os.Setenv("GOTOOLCHAIN", "local")
@@ -217,6 +224,9 @@ func main() {
 		}
 		fmt.Printf("%-50s paths=%d completed=%d panicked=%d oblig=%d/%d queries=%d solver=%.2fs wall=%.2fs %s\n", h.Name(), r.Paths, r.Completed, r.PanickedPaths,
 			r.Discharged, r.Obligations, r.Queries, r.SolverTime, r.Wall, status)
+		if os.Getenv("SYMGO_TIMING") != "" {
+			fmt.Printf("   timing: value=%.2fs send=%.2fs check=%.2fs\n", s.ValueTime.Seconds(), s.SendTime.Seconds(), s.Time.Seconds())
+		}
 		for _, u := range r.Unsupported {
 			fmt.Println("   unsupported:", u)
 		}
